@@ -120,8 +120,20 @@ bool guard(Outcome& o, F&& f)
     std::string cls = g.what;
     std::string msg = g.what;
     if (cls == "abort") {
-        cls = std::string("abort:") + g.abort_msg;
         msg = g.abort_msg;
+        // CNL_ASSERT text is "<path>:<line> assert: <expr>": keep the file's base name and the expression,
+        // drop directories and line numbers so that the class is stable across checkouts and edits
+        std::string m = msg;
+        auto a = m.find(" assert: ");
+        if (a != std::string::npos) {
+            std::string loc = m.substr(0, a), expr = m.substr(a + 9);
+            auto colon = loc.rfind(':');
+            if (colon != std::string::npos) loc = loc.substr(0, colon);
+            auto slash = loc.rfind('/');
+            if (slash != std::string::npos) loc = loc.substr(slash + 1);
+            m = "assert:" + loc + ":" + expr;
+        }
+        cls = std::string("abort:") + m;
     }
     o.fail(cls, msg);
     return false;
